@@ -2048,6 +2048,17 @@ def apply_renames(P, base):
             if len(cs) != 1 or sum(1 for k2 in missing if k2.rsplit('::', 1)[-1] == last and base[k2] == base[k]) != 1:
                 cs = []
         if not cs:
+            # a free function moved to another module of the same crate under its own name (`props::yaml::compartmentalize_map` ->
+            # `props::wildcard::compartmentalize_map`): same name, same full signature, unique on both sides, and it still calls every
+            # pinned function the old one called
+            last = k.rsplit('::', 1)[-1]
+            if not last[:1].isupper() and not parent(k).rsplit('::', 1)[-1][:1].isupper():
+                old_callees_ = {c for c, callers in getattr(P, 'baseline_callers', {}).items() if k in callers and c in P.fns and c != k}
+                cs = [f for f in new if f.kind == 'fn' and f.key.rsplit('::', 1)[-1] == last and fn_signature(f) == base[k] and len(base[k]) > 1
+                      and f.key.split('::', 1)[0] == k.split('::', 1)[0] and old_callees_ <= (_callees_through_new(P, f, base) | {f.key})]
+                if len(cs) != 1 or sum(1 for k2 in missing if k2.rsplit('::', 1)[-1] == last and base[k2] == base[k]) != 1:
+                    cs = []
+        if not cs:
             # an associated function moved to a sibling type / to module level of the same module (`Inner::alloc_from_region(node, ..)`
             # -> `ListNode::fit(&self, ..)`): same full signature, still calls what the old one called, and a pinned caller of the
             # old function calls it now
